@@ -32,6 +32,13 @@ def rand_doc(rng):
         nm = next(iter(doc["packages"]))
         base = nm[:-len(".tar.bz2")] if nm.endswith(".tar.bz2") else nm
         doc.setdefault("packages.conda", {})[base + ".conda"] = {"name": "p", "size": rng.randrange(10**6), "sha256": "%064x" % rng.getrandbits(256)}
+    if rng.random() < 0.35 and doc["packages"]:
+        # two artifacts whose metadata Python's == cannot tell apart (1 / 1.0 / True, 0 / False) but whose canonical bytes differ: each gets its own signature
+        nm = next(iter(doc["packages"]))
+        base = {"name": "q", "build_number": 1, "noarch": True, "size": 0, "track": [1, 0]}
+        doc["packages"]["twin-a-" + nm] = base
+        doc.setdefault("packages.conda", {})["twin-b-" + nm] = envgen.retyped(base)
+        doc["packages"]["twin-c-" + nm] = {"name": "q", "build_number": True, "noarch": 1, "size": False, "track": [1.0, 0]}
     if rng.random() < 0.5:
         doc["signatures"] = {"stale.tar.bz2": {gen.key(3).hex: {"signature": "00" * 64}}, **({next(iter(doc["packages"])): {"old": 1}} if doc["packages"] else {})}
     if rng.random() < 0.4:
